@@ -326,6 +326,9 @@ function observePair(c) {
   try { info = analyze(parsed.ast, strict); } catch (e) { return [{ id: c.id, env: -1, skip: 'analysis failed: ' + e.message }]; }
   if (info.usesEval) return [{ id: c.id, env: -1, skip: 'eval/Function' }];
   if (info.annexB) return [{ id: c.id, env: -1, skip: 'annex-B block function clash' }];
+  // "the wording of engine error messages" is excluded by the property: programs that read .message/.stack could carry it
+  // into host calls or globals, so they are outside what this recorder can compare
+  if (info.usesErrText) return [{ id: c.id, env: -1, skip: 'reads .message/.stack' }];
   const freeNames = Array.from(info.free).sort();
   // global lexical bindings are global variables too: those of the input and those the output may have added
   const lexSet = new Set(info.topLex);
